@@ -13,9 +13,18 @@
    inadmissible inputs (one node object at two positions).  History level: Inv2 holds in every state of every
    history made of such guarded steps (C18_inv_history_partial); replace() and replace_with(None / detached node) are
    covered for a receiver without a parent, and replace_with(None) for any node that has a parent (removal from a
-   single-child or tuple/list field, with the propagation of content_id to all ancestors).  NOT covered: replace /
-   replace_with(node) of a node that has a parent, replace_with(attached node), the two transformation classes (where most findings live), and the rejections raised while
-   attaching (C19).
+   single-child or tuple/list field, with the propagation of content_id to all ancestors).
+   Round 3 (end of this file, section 8): Rank is now the well-foundedness of the stored child relation (the address
+   order of round 2 is false once _replace_child has put a younger node under an older parent; the old clause
+   implies the new one, and the pigeonhole bound |heap| on chains makes tree_cid's fuel sufficient), and replace() /
+   replace_with(detached node) are covered for a receiver that HAS a parent, including the digest propagation to all
+   ancestors; both are part of the guarded histories.
+   replace_with(attached root) is covered too (the argument is popped before the id flip: PidOk has a hole at its
+   children until the re-attach).
+   A successful ASTTransformer.execute and a successful ASTTransformVisitor.transform are reduced to the history of
+   their primitive calls (sections 9, 10): they preserve Inv2 when that history is guarded.
+   NOT covered: that the guards hold for every admissible transformation, and the rejections raised while attaching
+   (C19).
    Every theorem about the invariant is therefore `_partial`.  See design.d/C18.md. *)
 From Oak Require Import Spec.LegacySpec Proofs.LegacyProofs Proofs.LegacyInv.
 From Coq Require Import List String Ascii ZArith Bool Arith.
@@ -98,8 +107,11 @@ Proof. exact replace_with_own_parent_diverges. Qed.
 From Oak Require Import Spec.LegacySpec2 Proofs.LegacyHistory Proofs.LegacyReplace Proofs.LegacyRemove2 Proofs.LegacyRemoveSeq3 Proofs.LegacyStep Proofs.LegacyQueries2
   Proofs.LegacyDetachTotal Proofs.LegacyExamples.
 
-(* 1. Inv2 = RegOk /\ Rank (child addresses are smaller than their parent's: acyclicity, makes the fuel of
-      tree_cid irrelevant) /\ PidOk (no dead stored parent id) /\ LInv: holds initially, implies Inv *)
+(* 1. Inv2 = RegOk /\ Rank (the stored child relation is well founded: every stored child exists and no node holds
+      itself below one of its children - since round 3; round 2 had "child addresses are smaller than their
+      parent's" = AddrRank, which implies Rank and is false after replace() of a node that has a parent, section 8;
+      Rank makes the fuel of tree_cid irrelevant) /\ PidOk (no dead stored parent id) /\ LInv: holds initially,
+      implies Inv *)
 Theorem C18_inv2_init_partial : forall H ct, Inv2 H ct empty_st.
 Proof. exact inv2_empty. Qed.
 Theorem C18_inv2_implies_inv_partial : forall H ct s, Inv2 H ct s -> Inv H ct s.
@@ -186,8 +198,8 @@ Proof. exact inv2_step_calc_xpath. Qed.
       changed child values exist, and - when the receiver was attached - new_guard read after the receiver has left
       the registry: the excluded input is exactly finding C18:Replace:child-detached (x.replace(f=x): the new node
       holds the now detached receiver, which carries the new node's id).
-      With a parent, _replace_child stores the younger node in the parent's field (Rank is false afterwards) and
-      _reset_content_id walks the ancestors: NOT proved; neither is replace_with(node) nor the transformations. *)
+      With a parent, _replace_child stores the younger node in the parent's field: section 8 (round 3).
+      replace_with(attached root): section 8 as well.  ASTTransformer.execute: section 9.  The visitor: section 10. *)
 Theorem C18_inv_step_replace_root_partial : forall H ct s a ch s' r,
   Inv2 H ct s -> parent s a = None ->
   step H ct s (OReplace a ch) = (s', RNode r) ->
@@ -203,7 +215,7 @@ Proof. exact inv2_step_replace_with_none_root. Qed.
       The guard of attach is read on the state in which the node already carries the receiver's id: it excludes
       findings C18:ReplaceWith:child-detached (the receiver sits inside the node) and C18:ReplaceWith:content-id.
       An ATTACHED node argument (popped from the registry before the flip, leaving its children with a dead parent
-      id until the re-attach) is not covered. *)
+      id until the re-attach): C18_inv_step_replace_with_root_attached_partial, section 8. *)
 Theorem C18_inv_step_replace_with_root_partial : forall H ct s a n s',
   Inv2 H ct s -> parent s a = None ->
   step H ct s (OReplaceWith a (Some n)) = (s', RNone) ->
@@ -266,11 +278,13 @@ Proof. exact x_example_replace. Qed.
 (* 6. histories: every state of a history whose steps are all covered (step_guard: the operations above with their
       guards and outcomes; a call that does not return leaves the state as it is) satisfies Inv2, hence Inv.
       Covered besides the above: replace() / replace_with(None) / replace_with(detached node) of a parent-less
-      receiver, replace_with(None) of a node that has a parent (any child field), and the rejections
-      ASTNodeReplaceError / ASTNodeReplaceWithError-of-replace_with(None) (state unchanged).
-      Missing for C18 itself: replace / replace_with(node) of a node that has a parent, replace_with(attached node),
-      ASTTransformVisitor, ASTTransformer, and the steps rejected while attaching - a history containing one of them
-      is not `guarded`. *)
+      receiver AND (round 3, section 8) of a receiver that has a parent, replace_with(None) of a node that has a
+      parent (any child field), and the rejections ASTNodeReplaceError / ASTNodeReplaceWithError-of-replace_with(None)
+      (state unchanged).
+      replace_with(attached root) is covered as well (round 3).
+      Missing for C18 itself: the steps rejected while attaching - a history containing one of them is not
+      `guarded`; ASTTransformer.execute and ASTTransformVisitor.transform are handled through the history of their
+      primitive calls (sections 9, 10), not as steps of `guarded`. *)
 Theorem C18_inv_step_partial : forall H ct s o s' ob,
   Inv2 H ct s -> step H ct s o = (s', ob) -> step_guard H ct s o s' ob -> Inv2 H ct s'.
 Proof. exact inv2_step. Qed.
@@ -299,3 +313,182 @@ Example C18_queries_total_example :
   Inv2 Hid ct0 x_s3 /\ live x_s3 0 /\ attached x_s3 0 /\ ancestors (fuel_of x_s3) x_s3 0 = Some [1] /\
   get_depth x_s3 0 = Some 1.
 Proof. exact x_example_queries. Qed.
+
+(* ====================================================================================================== *)
+(* Round 3: replace() / replace_with(node) of a receiver that HAS a parent                                 *)
+(* ====================================================================================================== *)
+From Oak Require Import Spec.LegacySpec3 Spec.LegacySpec4 Proofs.LegacyHeap Proofs.LegacyReplaceChild3 Proofs.LegacyReplaceChild4
+  Proofs.LegacyTransformer Proofs.LegacyVisitor Proofs.LegacyExamples3.
+
+(* 8. _replace_child(parent, old, field, index, new) stores the new - YOUNGER - node in the field of the older parent:
+      the address order of round 2 (AddrRank) does not survive it.  Rank is therefore the well-foundedness itself
+      (children exist, no node below one of its own children).  On the finite heap it bounds every chain of stored
+      children by |heap| (pigeonhole), so the digest of the rebuilt tree does not depend on the fuel once the fuel
+      exceeds |heap| - tree_cid's own fuel is |heap|+1 - and the old clause implies the new one. *)
+Theorem C18_rank_from_addr_rank_partial : forall s, AddrRank s -> Rank s.
+Proof. exact addr_rank_rank. Qed.
+Theorem C18_inv2_old_implies_inv2_partial : forall H ct s, Inv2_old H ct s -> Inv2 H ct s.
+Proof. exact inv2_old_inv2. Qed.
+Theorem C18_rank_depth_partial : forall s a, Rank s -> depth_le s (List.length (heap s)) a.
+Proof. exact rank_depth. Qed.
+Theorem C18_tree_cid_fuel_partial : forall H ct s a f f',
+  Rank s -> List.length (heap s) < f -> List.length (heap s) < f' -> tree_cid H ct f s a = tree_cid H ct f' s a.
+Proof. exact tree_cid_fuel. Qed.
+Example C18_rank_example :
+  Inv2_old Hid ct0 z_s4 /\ AddrRank z_s4 /\ Rank z_s5 /\ ~ AddrRank z_s5 /\ depth_le z_s5 2 3 /\ ~ depth_le z_s5 1 3.
+Proof. exact z_example_rank. Qed.
+
+(*    a.replace( **changes ) of a node that has a parent p (hence is attached: PidOk): a is cut out of p
+      (_clear_parent), detach_self'ed, the new node r is constructed under a's id over a's (changed) children, p's
+      field is redirected from a to r, r gets its parent slots, and - when the content_id changed -
+      _reset_content_id recomputes the digests of p and of ALL its ancestors.  Between a.detach and
+      p._replace_child the parent p still stores the detached a: those states satisfy Inv2 with a hole at that one
+      edge (Proofs/LegacyHole.v), and every digest stays right because no child field has changed yet.
+      Guards: the field names of p are distinct (a class instance); the changed child values exist; new_guard of
+      the constructor (as for a parent-less receiver: open finding C18:Replace:child-detached is its failure), read
+      after a has been cut out and detach_self'ed; the new node holds neither p (the new edge p -> r would close a
+      cycle: when the digests happen to agree the call returns, otherwise _reset_content_id never does) nor a below
+      it (implied by new_guard except when a's id is the UNSET marker of the constructor). *)
+Theorem C18_inv_step_replace_child_partial : forall H ct s a p ch s' r,
+  Inv2 H ct s -> parent s a = Some p ->
+  step H ct s (OReplace a ch) = (s', RNode r) ->
+  NoDup (map fst (c_fs (cellD s p))) ->
+  kids_live s (apply_changes (c_fs (cellD s a)) ch) ->
+  new_guard H ct (fst (step H ct (clear_parent s a) (ODetachSelf a))) s' r ->
+  ~ reach s' r p -> ~ reach s' r a ->
+  Inv2 H ct s'.
+Proof. exact inv2_step_replace_child. Qed.
+Example C18_inv_step_replace_child_example :
+  Inv2 Hid ct0 z_s4 /\ parent z_s4 0 = Some 1 /\ parent z_s4 1 = Some 3 /\
+  step Hid ct0 z_s4 z_o5 = (z_s5, RNode 4) /\
+  NoDup (map fst (c_fs (cellD z_s4 1))) /\
+  kids_live z_s4 (apply_changes (c_fs (cellD z_s4 0)) [(lit "v", CV (FP (LS (lit "c"))))])%string /\
+  new_guard Hid ct0 (fst (step Hid ct0 (clear_parent z_s4 0) (ODetachSelf 0))) z_s5 4 /\
+  ~ reach z_s5 4 1 /\ ~ reach z_s5 4 0 /\
+  skids z_s5 1 = [4] /\ parent z_s5 4 = Some 1 /\ detached z_s5 0 = true /\ ~ AddrRank z_s5 /\
+  c_cid (cellD z_s5 1) <> c_cid (cellD z_s4 1) /\ c_cid (cellD z_s5 3) <> c_cid (cellD z_s4 3) /\
+  Inv2 Hid ct0 z_s5.
+Proof. exact z_example_replace_child. Qed.
+
+(*    a.replace_with(n) of a node that has a parent p, n being detached once a's subtree is: a is cut out of p and
+      detached, n takes a's id (original_id = its old id), n is attached, p's field is redirected from a to n,
+      digests as above.  Guards: the field names of p are distinct; att_guard of n read on the state in which n
+      already carries a's id (excludes C18:ReplaceWith:child-detached - a inside n - and C18:ReplaceWith:content-id);
+      n does not hold p below it.  (An attached argument: below.) *)
+Theorem C18_inv_step_replace_with_child_partial : forall H ct s a p n s',
+  Inv2 H ct s -> parent s a = Some p ->
+  step H ct s (OReplaceWith a (Some n)) = (s', RNone) ->
+  NoDup (map fst (c_fs (cellD s p))) ->
+  detached (fst (step H ct (clear_parent s a) (ODetach a))) n = true ->
+  att_guard H ct (fst (flip_ids (fst (step H ct (clear_parent s a) (ODetach a))) a n)) n ->
+  ~ reach s' n p ->
+  Inv2 H ct s'.
+Proof. exact inv2_step_replace_with_child. Qed.
+Example C18_inv_step_replace_with_child_example :
+  Inv2 Hid ct0 z_s7 /\ parent z_s7 1 = Some 3 /\ c_pi (cellD z_s7 1) = Some 0 /\
+  step Hid ct0 z_s7 z_o8 = (z_s8, RNone) /\
+  NoDup (map fst (c_fs (cellD z_s7 3))) /\
+  detached (fst (step Hid ct0 (clear_parent z_s7 1) (ODetach 1))) 5 = true /\
+  att_guard Hid ct0 (fst (flip_ids (fst (step Hid ct0 (clear_parent z_s7 1) (ODetach 1))) 1 5)) 5 /\
+  ~ reach z_s8 5 3 /\
+  skids z_s8 3 = [2; 5] /\ parent z_s8 5 = Some 3 /\ c_pi (cellD z_s8 5) = Some 0 /\
+  detached z_s8 1 = true /\ detached z_s8 4 = true /\ id_of z_s8 5 = id_of z_s7 1 /\
+  c_cid (cellD z_s8 3) <> c_cid (cellD z_s7 3) /\ Inv2 Hid ct0 z_s8 /\
+  guarded Hid ct0 empty_st z_ops.
+Proof. exact z_example_replace_with_child. Qed.
+(*    replace_with(n) with an ATTACHED n (an attached root: an attached subtree node is rejected by the pre-check),
+      for a receiver without and with a parent.  flip_ids pops n from the registry BEFORE it overwrites n.id, so until
+      n is attached again the children of n carry a stored parent id that is not registered (PidOk has a hole at
+      exactly these nodes: Proofs/LegacyHoleY.v); they are still attached and `.parent` is None for them, so
+      _attach_inner takes them for attached roots and adopts them again under the new id.  Same guards as for a
+      detached argument (att_guard read on the flipped state). *)
+Theorem C18_inv_step_replace_with_root_attached_partial : forall H ct s a n s',
+  Inv2 H ct s -> parent s a = None ->
+  step H ct s (OReplaceWith a (Some n)) = (s', RNone) ->
+  detached (fst (step H ct s (ODetach a))) n = false ->
+  att_guard H ct (fst (flip_ids (fst (step H ct s (ODetach a))) a n)) n ->
+  Inv2 H ct s'.
+Proof. exact inv2_step_replace_with_root_attached. Qed.
+Example C18_inv_step_replace_with_root_attached_example :
+  Inv2 Hid ct0 r_s3 /\ parent r_s3 0 = None /\
+  step Hid ct0 r_s3 r_o4 = (r_s4, RNone) /\
+  detached (fst (step Hid ct0 r_s3 (ODetach 0))) 2 = false /\
+  att_guard Hid ct0 (fst (flip_ids (fst (step Hid ct0 r_s3 (ODetach 0))) 0 2)) 2 /\
+  c_pid (cellD r_m4 1) <> None /\ parent r_m4 1 = None /\ detached r_m4 1 = false /\
+  detached r_s4 0 = true /\ detached r_s4 2 = false /\ parent r_s4 1 = Some 2 /\ id_of r_s4 2 = id_of r_s3 0 /\
+  Inv2 Hid ct0 r_s4 /\ guarded Hid ct0 empty_st r_ops.
+Proof. exact r_example_replace_with_root_attached. Qed.
+Theorem C18_inv_step_replace_with_child_attached_partial : forall H ct s a p n s',
+  Inv2 H ct s -> parent s a = Some p ->
+  step H ct s (OReplaceWith a (Some n)) = (s', RNone) ->
+  NoDup (map fst (c_fs (cellD s p))) ->
+  detached (fst (step H ct (clear_parent s a) (ODetach a))) n = false ->
+  att_guard H ct (fst (flip_ids (fst (step H ct (clear_parent s a) (ODetach a))) a n)) n ->
+  ~ reach s' n p ->
+  Inv2 H ct s'.
+Proof. exact inv2_step_replace_with_child_attached. Qed.
+Example C18_inv_step_replace_with_child_attached_example :
+  Inv2 Hid ct0 q_s4 /\ parent q_s4 0 = Some 1 /\
+  step Hid ct0 q_s4 q_o5 = (q_s5, RNone) /\
+  NoDup (map fst (c_fs (cellD q_s4 1))) /\
+  detached (fst (step Hid ct0 (clear_parent q_s4 0) (ODetach 0))) 3 = false /\
+  att_guard Hid ct0 (fst (flip_ids (fst (step Hid ct0 (clear_parent q_s4 0) (ODetach 0))) 0 3)) 3 /\
+  ~ reach q_s5 3 1 /\
+  c_pid (cellD q_m5 2) <> None /\ parent q_m5 2 = None /\ detached q_m5 2 = false /\
+  skids q_s5 1 = [3] /\ parent q_s5 3 = Some 1 /\ parent q_s5 2 = Some 3 /\ id_of q_s5 3 = id_of q_s4 0 /\
+  detached q_s5 0 = true /\ Inv2 Hid ct0 q_s5 /\ guarded Hid ct0 empty_st q_ops.
+Proof. exact q_example_replace_with_child_attached. Qed.
+(*    All of these are part of step_guard, so C18_inv_step_partial / C18_inv_history_partial (section 6) cover histories
+      that contain them - z_ops, q_ops, r_ops above are `guarded` from the empty world. *)
+
+(* 9. ASTTransformer.execute.  It computes the bottom-up order of the tree first and then, node by node, calls the
+      callback and - when the callback returned a different node with a different id, or None - node.replace_with(
+      result).  With the rule language of the model every call it makes is an operation of the machine (replace(p=v),
+      a constructor, replace_with), and exec_ops (Spec/LegacySpec3.v) lists them: a SUCCESSFUL execute ends exactly in
+      the state in which that history ends.  Hence it preserves Inv2 whenever that history is guarded - the calls are
+      replace() of nodes that have a parent, replace_with(None), replace_with(freshly constructed attached root) of
+      nodes that have a parent: the cases of section 8.  (The guards are conditions on the intermediate states;
+      whether every admissible execute meets them is not proved.  Open findings C19:Transformer:* concern REJECTED
+      executes, C18:Dup:parent-slot a successful execute through the weak registry, which the model purges at the end
+      of the step only.) *)
+Theorem C18_transformer_is_history_partial : forall H ct rules s root s' o order,
+  op_execute H ct rules s root = Ok s' o -> postorder (fuel_of s) s root = Some order ->
+  run H ct s (exec_ops H ct rules root s order) = s'.
+Proof. exact execute_is_history. Qed.
+Theorem C18_inv_step_transformer_partial : forall H ct s root rules s' o made order,
+  Inv2 H ct s -> step H ct s (OTransformer root rules) = (s', ROut o made) ->
+  postorder (fuel_of s) s root = Some order ->
+  guarded H ct s (exec_ops H ct rules root s order) -> Inv2 H ct s'.
+Proof. exact inv2_step_transformer. Qed.
+Example C18_inv_step_transformer_example :
+  Inv2 Hid ct0 z_s4 /\ step Hid ct0 z_s4 t_o = (t_s3, ROut (Some 3) [4]) /\
+  postorder (fuel_of z_s4) z_s4 3 = Some [2; 0; 1; 3] /\
+  exec_ops Hid ct0 t_rules 3 z_s4 [2; 0; 1; 3] = [t_c1; t_c2; t_c3] /\
+  guarded Hid ct0 z_s4 (exec_ops Hid ct0 t_rules 3 z_s4 [2; 0; 1; 3]) /\
+  skids t_s3 3 = [4; 1] /\ skids t_s3 1 = [5] /\ detached t_s3 2 = true /\ detached t_s3 0 = true /\
+  c_cid (cellD t_s3 3) <> c_cid (cellD z_s4 3) /\ Inv2 Hid ct0 t_s3.
+Proof. exact t_example_transformer. Qed.
+
+(* 10. ASTTransformVisitor.transform, the same way: an attached node is duplicated as a detached clone, the callback
+      works on the clone (generic_visit / ASet transform the children of the clone first - they are detached, so no
+      further clone is made - and call clone.replace( **changes ) when something changed), finally
+      original.replace_with(result).  vtrace (Spec/LegacySpec4.v) lists these calls - duplicate(as_detached_clone=
+      True), replace of detached parent-less nodes, constructors, one replace_with -; a SUCCESSFUL transform ends in
+      the state in which that history ends (induction over the fuel and the two loops of _transform_children), hence
+      it preserves Inv2 whenever that history is guarded.  As for the transformer the guards are conditions on the
+      intermediate states (att_guard of the final replace_with: the result tree is a tree, its ids are pairwise
+      distinct, its cached digests are right); that every admissible transform meets them is not proved. *)
+Theorem C18_visitor_is_history_partial : forall H ct fuel rules s node made s' o,
+  vtransform H ct fuel rules s node made = Ok s' o -> run H ct s (vtrace H ct fuel rules s node made) = s'.
+Proof. exact vtransform_is_history. Qed.
+Theorem C18_inv_step_visitor_partial : forall H ct s a rules s' o made,
+  Inv2 H ct s -> step H ct s (OVisitor a rules) = (s', ROut o made) ->
+  guarded H ct s (vtrace H ct (fuel_of s) rules s a []) -> Inv2 H ct s'.
+Proof. exact inv2_step_visitor. Qed.
+Example C18_inv_step_visitor_example :
+  Inv2 Hid ct0 z_s2 /\ step Hid ct0 z_s2 u_o = (u_s4, ROut (Some 5) []) /\
+  vtrace Hid ct0 (fuel_of z_s2) u_rules z_s2 1 [] = [u_c1; u_c2; u_c3; u_c4] /\
+  guarded Hid ct0 z_s2 (vtrace Hid ct0 (fuel_of z_s2) u_rules z_s2 1 []) /\
+  detached u_s4 1 = true /\ detached u_s4 0 = true /\ detached u_s4 5 = false /\ parent u_s4 4 = Some 5 /\
+  id_of u_s4 5 = id_of z_s2 1 /\ c_cid (cellD u_s4 5) <> c_cid (cellD z_s2 1) /\ Inv2 Hid ct0 u_s4.
+Proof. exact u_example_visitor. Qed.
